@@ -45,6 +45,7 @@ def main():
     ap.add_argument('--checks', default='')
     ap.add_argument('--skip-confirm', action='store_true')
     ap.add_argument('--no-regen', action='store_true')
+    ap.add_argument('--confirm-only', action='store_true')
     a = ap.parse_args()
     d = os.path.abspath(a.dir)
     meta = json.load(open(os.path.join(d, 'meta.json')))
@@ -66,7 +67,7 @@ def main():
                 'missing_tests': missing[:5],
             }
             print('confirm:', meta['confirmed'])
-        checks = [c for c in a.checks.split(',') if c] or [meta['property']]
+        checks = [] if a.confirm_only else ([c for c in a.checks.split(',') if c] or [meta['property']])
         det = meta.setdefault('checks_run', {})
         for c in checks:
             env = dict(os.environ, REGIONS_SRC=wt, VERIF_SEED='0')
@@ -82,7 +83,7 @@ def main():
         sh(f'git -C /repo worktree remove --force {wt}')
         shutil.rmtree(wt, ignore_errors=True)
         # the checks regenerate Gen files from REGIONS_SRC; regenerate them from /repo again
-        if not a.no_regen:
+        if not a.no_regen and not a.confirm_only:
             env = dict(os.environ)
             env.pop('REGIONS_SRC', None)
             sh(f'cd {VERIF} && ./check setup', env=env)
